@@ -8,11 +8,12 @@
    * sha256, nfkd, lower are oracles; [sha_ok] (32 output bytes) and [normal_form] (listed words are
      fixed points of lower+NFKD; checked exhaustively by the harness on all 18432 words) are the
      only hypotheses.  [bip39_langs] are the nine lists regenerated from /repo on every run.
-   * A mnemonic object is a word list; the str entry points prepend [normalize] (split, lower, NFKD),
-     which is definitional in Model/Bip39.v and exercised by the correspondence run only. *)
+   * A mnemonic object is a word list; the str entry points prepend [normalize] (split, lower, NFKD):
+     [decode_str_encode] covers every white-space layout of listed words; lower/NFKD of other
+     spellings are oracle behaviour, exercised by the correspondence run only. *)
 From Coq Require Import NArith Arith List.
 From BU Require Import Base.Exn Base.Bytes Gen.Bip39Consts Gen.WlBip39 Model.BinStr Model.Bip39 Model.Bip39Spec.
-From BU Require Lemmas.Bip39 Lemmas.Bip39WlAux Lemmas.Bip39WordlistsOk Lemmas.Bip39Autodetect Lemmas.Bip39Props.
+From BU Require Lemmas.Bip39 Lemmas.Bip39Norm Lemmas.Bip39WlAux Lemmas.Bip39WordlistsOk Lemmas.Bip39Autodetect Lemmas.Bip39Props.
 Import ListNotations.
 Open Scope N_scope.
 
@@ -98,6 +99,20 @@ Proof.
   exact (Bip39Props.p_decode_encode sha256 nfkd lower Hs wl Hwl Hnf ent ws Hb E).
 Qed.
 Print Assumptions decode_encode.
+
+(* the same on str arguments: whatever white-space layout the sentence is written in (single
+   spaces = Mnemonic.ToStr, tabs, ideographic spaces, leading/trailing blanks), split/lower/NFKD
+   gives the words back and the entropy is recovered *)
+Theorem decode_str_encode : forall sha256 nfkd lower wl ent ws seps lead trail,
+  sha_ok sha256 -> In wl bip39_langs -> normal_form nfkd lower wl -> bytes_ok ent ->
+  encode sha256 nfkd lower wl ent = Ok ws ->
+  Forall (fun sp => sp <> [] /\ Bip39Norm.all_space sp) seps -> Bip39Norm.all_space lead -> Bip39Norm.all_space trail ->
+  decode_str sha256 nfkd lower bip39_langs (Some wl) (lead ++ Bip39Norm.join_with seps ws ++ trail) = Ok ent.
+Proof.
+  intros sha256 nfkd lower wl ent ws seps lead trail Hs Hwl Hnf Hb E H1 H2 H3.
+  exact (Bip39Props.p_decode_str_encode sha256 nfkd lower Hs wl Hwl Hnf ent ws seps lead trail Hb E H1 H2 H3).
+Qed.
+Print Assumptions decode_str_encode.
 
 (* accepted iff legal word count, every word listed, and the trailing len/3 bits of the sentence
    equal the SHA-256 prefix of the leading bits, which are the entropy returned *)
